@@ -98,7 +98,7 @@ def build(work, name="default", cc="gcc", opt="-O3", defs=(), hooks=True,
             cmd.append("-D" + GUARD)
         cmd += list(extra_drv)
         cmd += [os.path.join(HARNESS, "drv.c"), b.lib,
-                "-Wl,--wrap=calloc,--wrap=free", "-lpthread", "-o", b.drv]
+                "-Wl,--wrap=calloc,--wrap=free,--wrap=malloc,--wrap=realloc,--wrap=aligned_alloc,--wrap=posix_memalign", "-lpthread", "-o", b.drv]
         sh(cmd)
     return b
 
